@@ -29,5 +29,9 @@ for d in sorted(glob.glob(os.path.join(VERIF, 'seeded', '*'))):
     print(name, res, 'OK' if ok else 'UNEXPECTED', flush=True)
     subprocess.run(['python3', os.path.join(VERIF, 'bin', 'vbuild.py'), '--drop'], env=env)
     shutil.rmtree(scratch, ignore_errors=True)
-json.dump(out, open(os.path.join(VERIF, 'evidence', 'seed_regression.json'), 'w'), indent=1)
+path = os.path.join(VERIF, 'evidence', 'seed_regression.json')
+if only and os.path.exists(path):   # a partial run replaces only the entries it re-ran
+    names = {o['seed'] for o in out}
+    out = sorted([o for o in json.load(open(path)) if o['seed'] not in names] + out, key=lambda o: o['seed'])
+json.dump(out, open(path, 'w'), indent=1)
 print('all as expected:', all(o.get('ok') for o in out))
